@@ -102,7 +102,7 @@ func describeBytes(v ssa.Value, get func(ssa.Value) lat) string {
 		if l.k == kNil {
 			return "nil"
 		}
-		return "param:" + x.Name()
+		return paramDesc(x)
 	case *ssa.Alloc:
 		if elems, ok := arrayLitElems(x); ok {
 			var parts []string
@@ -176,7 +176,7 @@ func describeScalar(v ssa.Value) string {
 		}
 		return "call:" + short(calleeString(x))
 	case *ssa.Parameter:
-		return "param:" + x.Name()
+		return paramDesc(x)
 	case *ssa.UnOp:
 		if x.Op == token.MUL {
 			return "*" + describeScalar(x.X)
